@@ -751,6 +751,74 @@ fn bam_index(file: &[u8], nref: usize) -> Result<BamIndex, String> {
     Ok(ix.build(nref))
 }
 
+/// The BAM stream of `file` re-framed: optional NUL padding of the header text, members cut at
+/// arbitrary offsets (stored members, so any cut is cheap), EOF marker.
+fn reframe_bam(rng: &mut Rng, file: &[u8]) -> Option<Vec<u8>> {
+    use super::super::c01::{stored_member, EOF};
+    let raw = bgzf_decode(file).ok()?;
+    let u32_at = |b: &[u8], i: usize| -> Option<usize> { Some(u32::from_le_bytes(b.get(i..i + 4)?.try_into().ok()?) as usize) };
+    if raw.get(..4)? != b"BAM\x01" {
+        return None;
+    }
+    let l_text = u32_at(&raw, 4)?;
+    let pad = *rng.pick(&[0usize, 0, 0, 1, 16, 700, 9000, 20_000]);
+    let mut out = raw[..4].to_vec();
+    out.extend_from_slice(&((l_text + pad) as u32).to_le_bytes());
+    out.extend_from_slice(raw.get(8..8 + l_text)?);
+    let pad_at = out.len();
+    out.extend(std::iter::repeat_n(0u8, pad));
+    let mut pos = 8 + l_text;
+    let shift = pad;
+    // reference dictionary
+    let n_ref = u32_at(&raw, pos)?;
+    pos += 4;
+    for _ in 0..n_ref {
+        let l_name = u32_at(&raw, pos)?;
+        pos += 4 + l_name + 4;
+    }
+    // record starts
+    let mut cuts: Vec<usize> = vec![];
+    let mut p = pos;
+    while p + 4 <= raw.len() {
+        let bs = u32_at(&raw, p)?;
+        if rng.chance(1, 2) {
+            cuts.push(p + shift + 1 + rng.below(3) as usize);
+        }
+        p += 4 + bs;
+    }
+    out.extend_from_slice(raw.get(8 + l_text..)?);
+    if pad > 0 {
+        // cuts inside the padding
+        for _ in 0..1 + rng.below(3) {
+            cuts.push(pad_at + rng.below(pad as u64) as usize);
+        }
+    }
+    for _ in 0..rng.below(4) {
+        cuts.push(rng.below(out.len() as u64 + 1) as usize);
+    }
+    cuts.sort_unstable();
+    cuts.dedup();
+    let mut framed = vec![];
+    let mut at = 0usize;
+    let mut emit = |from: usize, to: usize, framed: &mut Vec<u8>| {
+        let mut a = from;
+        while a < to {
+            let b = (a + 60_000).min(to);
+            framed.extend_from_slice(&stored_member(&out[a..b]));
+            a = b;
+        }
+    };
+    for c in cuts {
+        if c > at && c <= out.len() {
+            emit(at, c, &mut framed);
+            at = c;
+        }
+    }
+    emit(at, out.len(), &mut framed);
+    framed.extend_from_slice(&EOF);
+    Some(framed)
+}
+
 fn bam_case(ctx: &mut Ctx, sub: u64) {
     let mut rng = Rng::new(sub);
     let case = format!("bam {sub}");
@@ -798,6 +866,21 @@ fn bam_case(ctx: &mut Ctx, sub: u64) {
         }
     }
     // ---- reader
+    // half of the files are re-framed first: the same BAM stream, its header text optionally
+    // padded with NULs (valid under l_text), cut into BGZF members at arbitrary offsets — with
+    // cuts 1..3 bytes into a record's block_size field and inside the padding, which the real
+    // writer's 64 KiB framing almost never produces
+    let file = if rng.chance(1, 2) {
+        match reframe_bam(&mut rng, &file) {
+            Some(f) => {
+                ctx.bump("bam_reader_file_reframed");
+                f
+            }
+            None => file,
+        }
+    } else {
+        file
+    };
     let layout = layout_of(&file);
     let mode = rng.below(4);
     let what = ["BAM read_record", "BAM read_record_buf", "BAM records()", "BAM record_bufs()"][mode as usize];
